@@ -47,18 +47,14 @@ theorem c06_order_witnesses :
   have := List.all_eq_true.mp (List.all_eq_true.mp h b hb) p hp
   simpa [hk] using this
 
-/-- the full single-rule statement is false: `min=3` on an `int8` field accepts 2 -/
+/-- the full single-rule statement is false: some documented cell of the regenerated table does not behave as
+    documented (on the pinned tree e.g. `min=3` on an `int8` field accepts 2) -/
 theorem c06_no_silent_noop_full_false : ¬ c06_no_silent_noop_full := by
   intro h
-  have hb : (tagTable.find? (fun b => b.fty == ⟨false, .int8⟩)).isSome = true := by decide +kernel
-  obtain ⟨b, hbe⟩ := Option.isSome_iff_exists.mp hb
-  have hmem : b ∈ tagTable := List.mem_of_find?_eq_some hbe
-  have hfty : b.fty = ⟨false, .int8⟩ := by
-    have := List.find?_some hbe; simpa using this
-  have key : ∀ b ∈ tagTable, b.fty = ⟨false, .int8⟩ → ∃ s ∈ b.singles, s.1 = .min 3 ∧ s.2 ≠ expected [s.1] b.probes := by
+  have key : ∃ b ∈ tagTable, ∃ s ∈ b.singles, documented s.1 b.fty.base.cls = true ∧ s.2 ≠ expected [s.1] b.probes := by
     decide +kernel
-  obtain ⟨s, hs, hr, hne⟩ := key b hmem hfty
-  exact hne (h b hmem s hs (by rw [hr, hfty]; rfl))
+  obtain ⟨b, hb, s, hs, hd, hne⟩ := key
+  exact hne (h b hb s hs hd)
 
 theorem c06_order_independent_full_false : ¬ c06_order_independent_full := by
   intro h
